@@ -270,3 +270,55 @@ func walkStmt(s pol.Stmt, f func(val.V)) {
 		walkStmt(c, f)
 	}
 }
+
+// SweepSizes are the sealed-token sizes worth visiting one by one: around the
+// CBOR length-head boundaries (256, 65536), the uvarint boundary of a CAR
+// section (16384 - 36-byte CID) and the common 4 KiB buffer size (with and
+// without the 36-byte CID and small prefixes).
+func SweepSizes() []int {
+	var out []int
+	for _, r := range [][2]int{{236, 300}, {3990, 4130}, {16320, 16400}, {65480, 65560}} {
+		for s := r[0]; s <= r[1]; s++ {
+			out = append(out, s)
+		}
+	}
+	return out
+}
+
+// PaddedDlg returns an Ed25519 delegation whose sealed size is exactly target
+// bytes (padding in a metadata string), or false when no padding length hits
+// it (sizes skipped when the CBOR length head grows).
+func PaddedDlg(target int) (Tok, []byte, bool) {
+	mk := func(k int) (Tok, []byte) {
+		pad := make([]byte, k)
+		for i := range pad {
+			pad[i] = 'a' + byte(i%26)
+		}
+		d := Tok{Dlg: &Dlg{Iss: KeyRef{Alg: keys.Ed25519, Idx: 0}, Aud: KeyRef{Alg: keys.Ed25519, Idx: 1}, Sub: "iss", Cmd: "/pad",
+			Nonce: []byte("padpadpadpad"), Meta: []KVal{{K: "pad", V: val.Str(string(pad))}}}}
+		tk, priv, err := Build(d)
+		if err != nil {
+			return d, nil
+		}
+		b, _, err := tk.ToSealed(priv)
+		if err != nil {
+			return d, nil
+		}
+		return d, b
+	}
+	_, base := mk(0)
+	if base == nil || target < len(base) {
+		return Tok{}, nil, false
+	}
+	k0 := target - len(base)
+	for k := k0; k >= 0 && k >= k0-12; k-- {
+		d, b := mk(k)
+		if len(b) == target {
+			return d, b, true
+		}
+		if len(b) < target {
+			break
+		}
+	}
+	return Tok{}, nil, false
+}
